@@ -93,12 +93,15 @@ def main(ck):
             # name the offending field(s): everything that is not a verbatim copy and not expected
             rows = [r for r in rep.get("fields", []) if r["kind"] != "copied" and (r["conversion"], r["field"]) not in EXPECTED_NONVERBATIM]
             detail = "; ".join("%s.%s: %s [%s]" % (r["conversion"], r["field"], r["kind"], r["source"]) for r in rows) or "no unexpected field mapping; see the lake output"
-            ck.oblige("field maps carry every field (restore_snapshot / serde_roundtrip re-proved against the regenerated file)", False,
+            short = ", ".join("%s.%s %s" % (r["conversion"], r["field"], r["kind"].split("(")[0]) for r in rows[:4]) or "see lake output"
+            print("field maps: proofs against the regenerated Generated/Fields.lean fail; offending field(s): " + detail)
+            ck.oblige("field maps carry every field (restore_snapshot / serde_roundtrip re-proved against the regenerated file) -- offending: " + short, False,
                       "UNEXPECTED FIELD MAPPINGS: " + detail + " || all non-verbatim: " + field_report(rep))
             for t in THEOREMS:
                 ck.oblige("theorem Qmc.C14." + t, False, "QmcProps.C14 does not build against the regenerated Generated/Fields.lean")
         ck.notes.append("non-verbatim field mappings in the current sources: " + field_report(rep))
     else:
+        print("field maps: " + rep.get("messages", ["?"])[0])
         for t in THEOREMS:
             ck.oblige("theorem Qmc.C14." + t, False, "Generated/Fields.lean could not be regenerated (unknown source shape)")
     if ck.cargo_build(BINS):
